@@ -7,3 +7,5 @@ import NutsModel.Model.StepSizeSearch
 import NutsModel.Model.Rand
 import NutsModel.Model.Tree
 import NutsModel.Drv.C01
+import NutsModel.Model.Schedule
+import NutsModel.Drv.C06
